@@ -20,8 +20,8 @@ func init() {
 			{ID: "C20.R2", Floor: 4, Doc: "stores to *tls.Config fields only on configs created in the same function", Run: c20r2},
 			{ID: "C20.R3", Floor: 1, Doc: "ServerName set only when verifying without an explicit name, from the dialled address", Run: c20r3},
 			{ID: "C20.R4", Floor: 5, Doc: "CA / key-pair file errors are returned and propagated", Run: c20r4},
-			{ID: "C20.R5", Floor: 3, Doc: "password token only after approve(); default list only when the custom list is empty", Run: c20r5},
-			{ID: "C20.R6", Floor: 4, Doc: "no unauthenticated session: nil only for READY / AUTH_SUCCESS; missing authenticator refused first", Run: c20r6},
+			{ID: "C20.R5", Floor: 2, Doc: "password token only after approve(); default list only when the custom list is empty", Run: c20r5},
+			{ID: "C20.R6", Floor: 3, Doc: "no unauthenticated session: nil only for READY / AUTH_SUCCESS; missing authenticator refused first", Run: c20r6},
 		},
 	})
 }
@@ -82,6 +82,9 @@ func (t tri) not() tri {
 // "<opts>.Config==nil", "<opts>.EnableHostVerification", "<opts>.Config.InsecureSkipVerify" and, for local configs,
 // "<var>.InsecureSkipVerify".
 type tlsInterp struct {
+	p     *Program
+	depth int
+	cret  []tri // helper mode: InsecureSkipVerify of the *tls.Config returned at each return reached
 	info  *types.Info
 	store map[string]tri
 	rets  []tri // InsecureSkipVerify of the returned config at each non-error return reached
@@ -98,6 +101,9 @@ func (ti *tlsInterp) eval(e ast.Expr) tri {
 		}
 		if x.Name == "false" {
 			return triFalse
+		}
+		if v, ok := ti.store[x.Name]; ok {
+			return v
 		}
 	case *ast.UnaryExpr:
 		if x.Op == token.NOT {
@@ -162,6 +168,7 @@ func (ti *tlsInterp) exec(stmts []ast.Stmt) bool {
 			}
 		case *ast.IfStmt:
 			if x.Init != nil {
+				ti.helperWrites(x.Init)
 				ti.exec([]ast.Stmt{x.Init})
 			}
 			c := ti.eval(x.Cond)
@@ -212,10 +219,14 @@ func (ti *tlsInterp) exec(stmts []ast.Stmt) bool {
 			}
 		case *ast.ReturnStmt:
 			if len(x.Results) == 2 && isNil(ti.info, x.Results[1]) {
-				ti.rets = append(ti.rets, ti.store[exprStr(x.Results[0])+".InsecureSkipVerify"])
+				ti.rets = append(ti.rets, ti.configISV(x.Results[0]))
+			}
+			if len(x.Results) == 1 && isTLSConfigPtr(ti.info.TypeOf(x.Results[0])) {
+				ti.cret = append(ti.cret, ti.configISV(x.Results[0]))
 			}
 			return false
 		case *ast.ExprStmt, *ast.IncDecStmt:
+			ti.helperWrites(s)
 		default:
 			// loops/switches: not expected in the decision part; any write to a tracked value inside makes it unknown
 			ast.Inspect(s, func(n ast.Node) bool {
@@ -231,6 +242,58 @@ func (ti *tlsInterp) exec(stmts []ast.Stmt) bool {
 		}
 	}
 	return true
+}
+
+// configISV: the InsecureSkipVerify of the config expression e (a variable, or a helper call that returns one).
+func (ti *tlsInterp) configISV(e ast.Expr) tri {
+	if c, ok := ast.Unparen(e).(*ast.CallExpr); ok {
+		if v, handled := ti.callConfig(c); handled {
+			return v
+		}
+	}
+	return ti.store[exprStr(e)+".InsecureSkipVerify"]
+}
+
+// callConfig interprets a call of a function of this package that returns a *tls.Config: its body is
+// interpreted with the caller's knowledge about the arguments.
+func (ti *tlsInterp) callConfig(c *ast.CallExpr) (tri, bool) {
+	if ti.p == nil || ti.depth > 2 {
+		return triUnknown, false
+	}
+	fn := calleeOf(ti.info, c)
+	if fn == nil {
+		return triUnknown, false
+	}
+	callee := ti.p.FuncOf(fn)
+	if callee == nil || callee.Pkg != ti.p.Root || callee.Decl.Body == nil {
+		return triUnknown, false
+	}
+	sub := &tlsInterp{p: ti.p, depth: ti.depth + 1, info: ti.info, store: map[string]tri{}}
+	k := 0
+	for _, pf := range callee.Decl.Type.Params.List {
+		for _, pn := range pf.Names {
+			if k < len(c.Args) {
+				a := exprStr(ast.Unparen(c.Args[k]))
+				for key, v := range ti.store {
+					if key == a || strings.HasPrefix(key, a+".") || strings.HasPrefix(key, a+"==") {
+						sub.store[pn.Name+strings.TrimPrefix(key, a)] = v
+					}
+				}
+			}
+			k++
+		}
+	}
+	sub.exec(callee.Decl.Body.List)
+	if len(sub.cret) == 0 {
+		return triUnknown, false
+	}
+	v := sub.cret[0]
+	for _, o := range sub.cret[1:] {
+		if o != v {
+			v = triUnknown
+		}
+	}
+	return v, true
 }
 
 func (ti *tlsInterp) snapshot() map[string]tri {
@@ -266,8 +329,21 @@ func (ti *tlsInterp) assign(l, r ast.Expr) {
 	if !ok {
 		return
 	}
+	if t := ti.info.TypeOf(l); t != nil {
+		if b, isB := t.Underlying().(*types.Basic); isB && b.Kind() == types.Bool {
+			ti.store[id.Name] = ti.eval(r) // a boolean local
+			return
+		}
+	}
 	if typeNameOf(ti.info.TypeOf(l)) != "Config" {
 		return
+	}
+	// var = helper(...): a function of this package that builds / returns the config
+	if c, ok := r.(*ast.CallExpr); ok {
+		if v, handled := ti.callConfig(c); handled {
+			ti.store[id.Name+".InsecureSkipVerify"] = v
+			return
+		}
 	}
 	// var = &tls.Config{InsecureSkipVerify: e}
 	if u, ok := r.(*ast.UnaryExpr); ok && u.Op == token.AND {
@@ -331,7 +407,7 @@ func c20r1(p *Program, r *Report) {
 		opts = po.Name()
 	}
 	for _, row := range ref {
-		ti := &tlsInterp{info: info, store: map[string]tri{
+		ti := &tlsInterp{p: p, info: info, store: map[string]tri{
 			opts + ".Config==nil":               triOf(row.cfgNil),
 			opts + ".EnableHostVerification":    triOf(row.ehv),
 			opts + ".Config.InsecureSkipVerify": triOf(row.isv),
@@ -369,6 +445,84 @@ func isTLSConfigPtr(t types.Type) bool {
 	return nt != nil && nt.Obj().Name() == "Config" && nt.Obj().Pkg() != nil && nt.Obj().Pkg().Path() == "crypto/tls"
 }
 
+// freshConfigs solves, for fi, which local *tls.Config variables hold a config created by the driver (literal,
+// Clone, or a helper of this package that returns such a config) on every path.
+func freshConfigs(p *Program, fi *FuncInfo, depth int) *Solution[strset] {
+	g := p.GraphOf(fi)
+	info := g.Info
+	return Solve(g, Lattice[strset]{
+		Init: strset{}, Join: func(a, b strset) strset { return a.intersect(b) }, Eq: func(a, b strset) bool { return a.eq(b) },
+		Step: func(s strset, st Step) strset {
+			if st.Kind != StNode {
+				return s
+			}
+			as, ok := st.Node.(*ast.AssignStmt)
+			if !ok || len(as.Lhs) != len(as.Rhs) {
+				if vs, ok := st.Node.(*ast.ValueSpec); ok {
+					for _, nm := range vs.Names {
+						s = s.without(nm.Name)
+					}
+				}
+				return s
+			}
+			for i, l := range as.Lhs {
+				id, ok := l.(*ast.Ident)
+				if !ok {
+					continue
+				}
+				if t := info.TypeOf(l); t == nil || !isTLSConfigPtr(t) {
+					continue
+				}
+				if isFreshConfigExpr(p, info, as.Rhs[i], depth) {
+					s = s.with(id.Name)
+				} else {
+					s = s.without(id.Name)
+				}
+			}
+			return s
+		},
+	})
+}
+
+func isFreshConfigExpr(p *Program, info *types.Info, e ast.Expr, depth int) bool {
+	rhs := ast.Unparen(e)
+	if u, ok := rhs.(*ast.UnaryExpr); ok && u.Op == token.AND {
+		_, isLit := ast.Unparen(u.X).(*ast.CompositeLit)
+		return isLit
+	}
+	c, ok := rhs.(*ast.CallExpr)
+	if !ok {
+		return false
+	}
+	if calleeName(info, c) == "tls.(*Config).Clone" {
+		return true
+	}
+	// a helper of this package every return of which is a fresh config
+	if fn := calleeOf(info, c); fn != nil && depth < 2 {
+		if h := p.FuncOf(fn); h != nil && h.Pkg == p.Root && h.Decl.Body != nil {
+			hf := freshConfigs(p, h, depth+1)
+			nret, all := 0, true
+			for _, ex := range p.GraphOf(h).Exits() {
+				rs, isR := ex.Node.(*ast.ReturnStmt)
+				if !isR || len(rs.Results) == 0 || !isTLSConfigPtr(h.Pkg.TypesInfo.TypeOf(rs.Results[0])) {
+					continue
+				}
+				if isNil(h.Pkg.TypesInfo, rs.Results[0]) {
+					continue
+				}
+				nret++
+				s, _ := hf.Before(rs)
+				id, isId := ast.Unparen(rs.Results[0]).(*ast.Ident)
+				if !(isId && s[id.Name]) && !isFreshConfigExpr(p, h.Pkg.TypesInfo, rs.Results[0], depth+1) {
+					all = false
+				}
+			}
+			return nret > 0 && all
+		}
+	}
+	return false
+}
+
 func c20r2(p *Program, r *Report) {
 	n := 0
 	p.forEachFunc(false, func(fi *FuncInfo) {
@@ -391,50 +545,7 @@ func c20r2(p *Program, r *Report) {
 		if len(stores) == 0 {
 			return
 		}
-		g := p.GraphOf(fi)
-		// fresh = set of local *tls.Config variables that hold a config created in this function on every path
-		fresh := Solve(g, Lattice[strset]{
-			Init: strset{}, Join: func(a, b strset) strset { return a.intersect(b) }, Eq: func(a, b strset) bool { return a.eq(b) },
-			Step: func(s strset, st Step) strset {
-				if st.Kind != StNode {
-					return s
-				}
-				as, ok := st.Node.(*ast.AssignStmt)
-				if !ok || len(as.Lhs) != len(as.Rhs) {
-					if vs, ok := st.Node.(*ast.ValueSpec); ok {
-						for _, nm := range vs.Names {
-							s = s.without(nm.Name)
-						}
-					}
-					return s
-				}
-				for i, l := range as.Lhs {
-					id, ok := l.(*ast.Ident)
-					if !ok {
-						continue
-					}
-					if t := info.TypeOf(l); t == nil || !isTLSConfigPtr(t) {
-						continue
-					}
-					rhs := ast.Unparen(as.Rhs[i])
-					isFresh := false
-					if u, ok := rhs.(*ast.UnaryExpr); ok && u.Op == token.AND {
-						_, isFresh = ast.Unparen(u.X).(*ast.CompositeLit)
-					}
-					if c, ok := rhs.(*ast.CallExpr); ok {
-						if sel, ok := ast.Unparen(c.Fun).(*ast.SelectorExpr); ok && sel.Sel.Name == "Clone" && calleeName(info, c) == "tls.(*Config).Clone" {
-							isFresh = true
-						}
-					}
-					if isFresh {
-						s = s.with(id.Name)
-					} else {
-						s = s.without(id.Name)
-					}
-				}
-				return s
-			},
-		})
+		fresh := freshConfigs(p, fi, 0)
 		for _, as := range stores {
 			for _, l := range as.Lhs {
 				sel, ok := ast.Unparen(l).(*ast.SelectorExpr)
@@ -444,7 +555,39 @@ func c20r2(p *Program, r *Report) {
 				n++
 				s, _ := fresh.Before(as)
 				id, isId := ast.Unparen(sel.X).(*ast.Ident)
-				r.Check(isId && s[id.Name], as, fi.Name+" writes "+exprStr(l), "the config was created (literal or Clone) in this function on every path",
+				okFresh := isId && s[id.Name]
+				if !okFresh && isId && fi.Obj != nil && !fi.Obj.Exported() {
+					// a parameter of a private helper: every caller hands over a config it created itself
+					sig := fi.Obj.Type().(*types.Signature)
+					for pi := 0; pi < sig.Params().Len(); pi++ {
+						if sig.Params().At(pi) != info.Uses[id] || !neverAssigned(info, fi.Decl.Body, info.Uses[id]) {
+							continue
+						}
+						nsite, all := 0, !p.usedAsValue(fi)
+						for _, caller := range p.SortedFuncs() {
+							if caller.Decl.Body == nil {
+								continue
+							}
+							var cf *Solution[strset]
+							for _, c := range callsIn(caller.Decl.Body) {
+								if fn := calleeOf(caller.Pkg.TypesInfo, c); fn == nil || p.FuncOf(fn) != fi || pi >= len(c.Args) {
+									continue
+								}
+								nsite++
+								if cf == nil {
+									cf = freshConfigs(p, caller, 0)
+								}
+								cs, _ := cf.Before(p.stmtOf(c, caller))
+								aid, isA := ast.Unparen(c.Args[pi]).(*ast.Ident)
+								if !(isA && cs[aid.Name]) && !isFreshConfigExpr(p, caller.Pkg.TypesInfo, c.Args[pi], 0) {
+									all = false
+								}
+							}
+						}
+						okFresh = nsite > 0 && all
+					}
+				}
+				r.Check(okFresh, as, fi.Name+" writes "+exprStr(l), "the config was created (literal or Clone) in this function on every path, or by every caller of this helper",
 					"a field of a *tls.Config that was not created in this function is written: the caller's own (shared) configuration is modified - verification settings leak between connections and into the application's config")
 			}
 		}
@@ -494,6 +637,20 @@ func c20r3(p *Program, r *Report) {
 				}
 				condOK = hasISV && hasName
 			}
+			if !condOK {
+				// the same guard as early return: known facts at the assignment
+				f, _ := p.GraphOf(fi).GuardFacts().Before(as)
+				noSkip, noName := false, false
+				for atom, v := range f.m {
+					if strings.HasSuffix(atom, ".InsecureSkipVerify") && !v {
+						noSkip = true
+					}
+					if (strings.HasSuffix(atom, `.ServerName == ""`) || strings.HasPrefix(atom, `"" == `) && strings.HasSuffix(atom, ".ServerName")) && v {
+						noName = true
+					}
+				}
+				condOK = noSkip && noName
+			}
 			r.Check(condOK, as, fi.Name+" sets ServerName only when verifying without an explicit name", `under !InsecureSkipVerify && ServerName == ""`,
 				"ServerName is assigned without the guard !InsecureSkipVerify && ServerName == \"\": an explicit name is overwritten, or verification state is ignored")
 			// value derives from the address parameter (directly, or through one local definition)
@@ -515,15 +672,43 @@ func c20r3(p *Program, r *Report) {
 				}
 				return false
 			}
-			if isStrParam(as.Rhs[0]) {
+			// derived: the address parameter, a slice of it, or a string helper of this package applied to it
+			derived := func(e ast.Expr) bool {
+				e = ast.Unparen(e)
+				if isStrParam(e) {
+					return true
+				}
+				if c, ok := e.(*ast.CallExpr); ok {
+					if fn := calleeOf(info, c); fn != nil {
+						if h := p.FuncOf(fn); h != nil && h.Pkg == p.Root {
+							for _, a := range c.Args {
+								if isStrParam(a) {
+									return true
+								}
+							}
+						}
+					}
+				}
+				return false
+			}
+			if derived(as.Rhs[0]) {
 				fromAddr = true
 			} else if id, ok := ast.Unparen(as.Rhs[0]).(*ast.Ident); ok {
+				ndef, nok := 0, 0
 				ast.Inspect(fi.Decl.Body, func(m ast.Node) bool {
-					if a2, ok := m.(*ast.AssignStmt); ok && len(a2.Lhs) == 1 && len(a2.Rhs) == 1 && isIdentOf(info, a2.Lhs[0], info.Uses[id]) && isStrParam(a2.Rhs[0]) {
-						fromAddr = true
+					if a2, ok := m.(*ast.AssignStmt); ok && len(a2.Lhs) == len(a2.Rhs) {
+						for i2, l2 := range a2.Lhs {
+							if lid, isId := l2.(*ast.Ident); isId && (info.Defs[lid] == info.Uses[id] || info.Uses[lid] == info.Uses[id]) {
+								ndef++
+								if derived(a2.Rhs[i2]) {
+									nok++
+								}
+							}
+						}
 					}
 					return true
 				})
+				fromAddr = ndef > 0 && ndef == nok
 			}
 			r.Check(fromAddr, as, fi.Name+" derives ServerName from the dialled address", "host part of the addr parameter", "the server name used for verification is not derived from the address being dialled")
 			return true
@@ -584,31 +769,47 @@ func c20r4(p *Program, r *Report) {
 	}
 	info := fi.Pkg.TypesInfo
 	n := 0
-	ast.Inspect(fi.Decl.Body, func(x ast.Node) bool {
-		c, ok := x.(*ast.CallExpr)
-		if !ok {
-			return true
-		}
-		switch name := calleeName(info, c); name {
-		case "ioutil.ReadFile", "os.ReadFile", "tls.LoadX509KeyPair":
-			n++
-			ok, why := errorBranchReturnsErr(p, fi, c)
-			r.Check(ok, c, "setupTLSConfig reports a failing "+name, "error returned", "a failure of "+name+" is not returned as an error ("+why+"): the session connects without the CA / client certificate the user configured")
-		case "x509.(*CertPool).AppendCertsFromPEM":
-			n++
-			// `if !pool.AppendCertsFromPEM(pem) { return nil, err }`
-			okRet := false
-			if u, ok := p.Parent(c).(*ast.UnaryExpr); ok && u.Op == token.NOT {
-				if ifs, ok := p.Parent(u).(*ast.IfStmt); ok && len(ifs.Body.List) > 0 {
-					if rs, ok := ifs.Body.List[len(ifs.Body.List)-1].(*ast.ReturnStmt); ok && len(rs.Results) == 2 && !isNil(info, rs.Results[1]) {
-						okRet = true
+	top := fi
+	for _, fi := range p.unitsOf(top) {
+		fi := fi
+		// a helper's error must in turn be returned by setupTLSConfig
+		if fi != top {
+			for _, c := range callsIn(top.Decl.Body) {
+				if fn := calleeOf(info, c); fn != nil && p.FuncOf(fn) == fi {
+					sig := fn.Type().(*types.Signature)
+					if sig.Results().Len() > 0 && isErrorType(sig.Results().At(sig.Results().Len()-1).Type()) {
+						ok, why := errorBranchReturnsErr(p, top, c)
+						r.Check(ok, c, "setupTLSConfig reports a failing "+fi.Name, "error returned", "a failure of "+fi.Name+" is not returned as an error ("+why+"): the session connects without the CA / client certificate the user configured")
 					}
 				}
 			}
-			r.Check(okRet, c, "setupTLSConfig reports an unparsable CA file", "error returned when no certificate could be parsed", "an unparsable CA file is silently ignored: connections are verified against the system roots only")
 		}
-		return true
-	})
+		ast.Inspect(fi.Decl.Body, func(x ast.Node) bool {
+			c, ok := x.(*ast.CallExpr)
+			if !ok {
+				return true
+			}
+			switch name := calleeName(info, c); name {
+			case "ioutil.ReadFile", "os.ReadFile", "tls.LoadX509KeyPair":
+				n++
+				ok, why := errorBranchReturnsErr(p, fi, c)
+				r.Check(ok, c, "setupTLSConfig reports a failing "+name, "error returned", "a failure of "+name+" is not returned as an error ("+why+"): the session connects without the CA / client certificate the user configured")
+			case "x509.(*CertPool).AppendCertsFromPEM":
+				n++
+				// `if !pool.AppendCertsFromPEM(pem) { return nil, err }`
+				okRet := false
+				if u, ok := p.Parent(c).(*ast.UnaryExpr); ok && u.Op == token.NOT {
+					if ifs, ok := p.Parent(u).(*ast.IfStmt); ok && len(ifs.Body.List) > 0 {
+						if rs, ok := ifs.Body.List[len(ifs.Body.List)-1].(*ast.ReturnStmt); ok && len(rs.Results) >= 1 && !isNil(info, rs.Results[len(rs.Results)-1]) {
+							okRet = true
+						}
+					}
+				}
+				r.Check(okRet, c, "setupTLSConfig reports an unparsable CA file", "error returned when no certificate could be parsed", "an unparsable CA file is silently ignored: connections are verified against the system roots only")
+			}
+			return true
+		})
+	}
 	if n < 3 {
 		r.Unresolved("setupTLSConfig: expected ReadFile, AppendCertsFromPEM and LoadX509KeyPair calls, found %d", n)
 	}
@@ -764,5 +965,42 @@ func c20r6(p *Program, r *Report) {
 			}
 			return true
 		})
+	}
+}
+
+// helperWrites: a config handed to a function of this package that assigns its InsecureSkipVerify is unknown
+// afterwards.
+func (ti *tlsInterp) helperWrites(n ast.Node) {
+	if ti.p == nil {
+		return
+	}
+	for _, c := range callsIn(n) {
+		fn := calleeOf(ti.info, c)
+		if fn == nil {
+			continue
+		}
+		callee := ti.p.FuncOf(fn)
+		if callee == nil || callee.Pkg != ti.p.Root || callee.Decl.Body == nil {
+			continue
+		}
+		writes := false
+		ast.Inspect(callee.Decl.Body, func(m ast.Node) bool {
+			if as, ok := m.(*ast.AssignStmt); ok {
+				for _, l := range as.Lhs {
+					if strings.HasSuffix(exprStr(l), ".InsecureSkipVerify") {
+						writes = true
+					}
+				}
+			}
+			return true
+		})
+		if !writes {
+			continue
+		}
+		for _, a := range c.Args {
+			if isTLSConfigPtr(ti.info.TypeOf(a)) {
+				ti.store[exprStr(ast.Unparen(a))+".InsecureSkipVerify"] = triUnknown
+			}
+		}
 	}
 }
